@@ -15,11 +15,13 @@ def decodeSE : Bytes → Cps
     let n := c.toNat
     if n < 0x80 then n :: decodeSE rest
     else
-      let esc := (0xDC00 + n) :: decodeSE rest
+      -- (a thunk: the compiled driver must not evaluate both continuations, that is exponential in the number of
+      --  multi-byte characters)
+      let esc : Unit → Cps := fun _ => (0xDC00 + n) :: decodeSE rest
       if 0xC2 ≤ n ∧ n ≤ 0xDF then
         match rest with
-        | c1 :: r => if isCont c1 then ((n - 0xC0) * 64 + (c1.toNat - 0x80)) :: decodeSE r else esc
-        | _ => esc
+        | c1 :: r => if isCont c1 then ((n - 0xC0) * 64 + (c1.toNat - 0x80)) :: decodeSE r else esc ()
+        | _ => esc ()
       else if 0xE0 ≤ n ∧ n ≤ 0xEF then
         match rest with
         | c1 :: c2 :: r =>
@@ -28,8 +30,8 @@ def decodeSE : Bytes → Cps
           let hi := if n = 0xED then 0x9F else 0xBF
           if lo ≤ n1 ∧ n1 ≤ hi ∧ isCont c2 then
             ((n - 0xE0) * 4096 + (n1 - 0x80) * 64 + (c2.toNat - 0x80)) :: decodeSE r
-          else esc
-        | _ => esc
+          else esc ()
+        | _ => esc ()
       else if 0xF0 ≤ n ∧ n ≤ 0xF4 then
         match rest with
         | c1 :: c2 :: c3 :: r =>
@@ -38,9 +40,9 @@ def decodeSE : Bytes → Cps
           let hi := if n = 0xF4 then 0x8F else 0xBF
           if lo ≤ n1 ∧ n1 ≤ hi ∧ isCont c2 ∧ isCont c3 then
             ((n - 0xF0) * 262144 + (n1 - 0x80) * 4096 + (c2.toNat - 0x80) * 64 + (c3.toNat - 0x80)) :: decodeSE r
-          else esc
-        | _ => esc
-      else esc
+          else esc ()
+        | _ => esc ()
+      else esc ()
 termination_by s => s.length
 decreasing_by all_goals (simp_all; try omega)
 
